@@ -275,6 +275,16 @@ Definition master_step (c : cfg) (s : state) : option state :=
   | MReturned | MRaised => None
   end.
 
+(* A permitted variation of the master's locking (the properties do not depend on it): after a
+   pass that made progress, or after a wake-up, the master may keep the condition variable and
+   start the next pass at once instead of releasing and re-acquiring it.  The step is then the
+   first decision of that pass. *)
+Definition master_step_alt (c : cfg) (s : state) : option state :=
+  match mp s with
+  | MCvRelLoop ((_ :: _) as acc) => master_step c (set_mp s (MDecide acc [] (length acc)))
+  | _ => None
+  end.
+
 (* [now]: values returned by the time.time() calls of this step, in order *)
 Definition worker_step (c : cfg) (s : state) (w : nat) (now : list nat) : option state :=
   match wp s w with
@@ -332,7 +342,11 @@ Definition worker_step (c : cfg) (s : state) (w : nat) (now : list nat) : option
 
 Definition step (c : cfg) (s : state) (tid : nat) (now : list nat) : option state :=
   match tid with
-  | O => match now with [] => master_step c s | _ => None end
+  | O => match now with
+         | [] => master_step c s
+         | [_] => master_step_alt c s      (* a one-element list selects the variation *)
+         | _ => None
+         end
   | S w =>
       match wp s w, now with
       | WGet, _ | WStart _ _, _ => worker_step c s w now
